@@ -350,7 +350,11 @@ fn build(kind: &ReqKind) -> Built {
       let items: Vec<String> = docs.iter().map(doc_json).collect();
       let mut body = format!("{{\"docs\": [{}]}}", items.join(", "));
       if *malformed {
-        body.truncate(body.len() / 2);
+        let mut cut = body.len() / 2;
+        while !body.is_char_boundary(cut) {
+          cut -= 1;
+        }
+        body.truncate(cut);
       }
       Built {
         method: "POST",
